@@ -22,6 +22,16 @@ type Clause struct {
 	Line  int
 }
 
+// LoopGhost: a ghost array that belongs to one call-site loop; LoopStep: its update after one iteration
+type LoopGhost struct{ Name, Key, Val string }
+type LoopStep struct {
+	Cond  *CExpr
+	Ghost string
+	Index *CExpr
+	Val   *CExpr
+	Src   string
+}
+
 type FuncContract struct {
 	Pkg         string // import path
 	Key         string // RelString within package, e.g. (*gateImpl).SetCount
@@ -31,6 +41,8 @@ type FuncContract struct {
 	HasModifies bool
 	Loops       map[string][]Clause // loop signature -> invariants
 	LoopOrder   []string
+	LoopGhosts  map[string][]LoopGhost // ghost arrays of a call-site loop (foreach)
+	LoopSteps   map[string][]LoopStep  // their updates, one iteration each
 	Flags       map[string]string
 	Assumed     bool // comes from stdlib.spec: contract is assumed, body never verified
 	Emits       []string
@@ -112,7 +124,12 @@ type ContractDB struct {
 	Lemmas   []Lemma
 	ModSets  map[string][]*CExpr
 	GlobalInvs map[string][]Clause // package path -> invariants over package variables
+	Immutable  []ImmutableDecl     // fields that are written only while their object is being constructed
 }
+
+// ImmutableDecl: "immutable T.f" — no function of the module stores into field f of a T except the function that
+// allocated that very object (checked over the whole module by every check that verifies a function of the package)
+type ImmutableDecl struct{ Pkg, Type, Field, Src string }
 
 type Lemma struct {
 	Pkg  string
@@ -340,6 +357,12 @@ func (db *ContractDB) LoadFile(path, pkgPath string, assumed bool) error {
 					}
 					db.ModSets[name] = append(db.ModSets[name], e)
 				}
+			case "immutable":
+				parts := strings.Split(strings.TrimSpace(rest), ".")
+				if len(parts) != 2 {
+					return errf(l, "immutable <Type>.<field>")
+				}
+				db.Immutable = append(db.Immutable, ImmutableDecl{Pkg: pkgPath, Type: parts[0], Field: parts[1], Src: "immutable " + rest})
 			case "const":
 				e, err := ParseCExpr(rest)
 				if err != nil {
@@ -398,6 +421,49 @@ func (db *ContractDB) LoadFile(path, pkgPath string, assumed bool) error {
 				}
 			case "loop":
 				// loop <signature>: invariant <expr>
+				if i := strings.Index(rest, ": ghost "); i >= 0 {
+					// loop <signature>: ghost <name> <key type> -> <value type>
+					f := strings.Fields(rest[i+len(": ghost "):])
+					if len(f) != 4 || f[2] != "->" {
+						return errf(l, "loop <signature>: ghost <name> <key type> -> <value type>")
+					}
+					sig := strings.TrimSpace(rest[:i])
+					if curFn.LoopGhosts == nil {
+						curFn.LoopGhosts = map[string][]LoopGhost{}
+					}
+					curFn.LoopGhosts[sig] = append(curFn.LoopGhosts[sig], LoopGhost{Name: f[0], Key: f[1], Val: f[3]})
+					break
+				}
+				if i := strings.Index(rest, ": step "); i >= 0 {
+					// loop <signature>: step <cond> ==> <ghost>[<index>] := <value>
+					sig := strings.TrimSpace(rest[:i])
+					body := rest[i+len(": step "):]
+					a := strings.Index(body, " ==> ")
+					b := strings.Index(body, " := ")
+					if a < 0 || b < a {
+						return errf(l, "loop <signature>: step <cond> ==> <ghost>[<index>] := <value>")
+					}
+					cond, err := ParseCExpr(strings.TrimSpace(body[:a]))
+					if err != nil {
+						return errf(l, "%v", err)
+					}
+					lhs, err := ParseCExpr(strings.TrimSpace(body[a+5 : b]))
+					if err != nil {
+						return errf(l, "%v", err)
+					}
+					val, err := ParseCExpr(strings.TrimSpace(body[b+4:]))
+					if err != nil {
+						return errf(l, "%v", err)
+					}
+					if lhs.Op != "index" || lhs.Args[0].Op != "id" {
+						return errf(l, "step: the left-hand side must be <ghost>[<index>]")
+					}
+					if curFn.LoopSteps == nil {
+						curFn.LoopSteps = map[string][]LoopStep{}
+					}
+					curFn.LoopSteps[sig] = append(curFn.LoopSteps[sig], LoopStep{Cond: cond, Ghost: lhs.Args[0].Name, Index: lhs.Args[1], Val: val, Src: strings.TrimSpace(body)})
+					break
+				}
 				i := strings.Index(rest, ": invariant ")
 				if i < 0 {
 					return errf(l, "loop <signature>: invariant <expr>")
